@@ -153,6 +153,23 @@ class Effects:
             c = classify(v)
             if c is not None:
                 alias[name] = c
+        # a name all of whose definitions are fresh values is fresh (also a parameter that is re-bound to a fresh
+        # value, e.g. `constraints = constraints + []`; flow-insensitive: a mutation *before* the rebinding would be
+        # missed, the repository has none -- rebinding is the first statement using the name wherever it occurs)
+        by_name: Dict[str, List] = {}
+        for name, v in assigns:
+            by_name.setdefault(name, []).append(v)
+        for name, vs in by_name.items():
+            if name in alias:
+                continue
+            if name not in params and all(isinstance(v, tuple) and v[0] == "elem" for v in vs):
+                cs = {classify(v) for v in vs}
+                if len(cs) == 1 and None not in cs:
+                    alias[name] = cs.pop()      # the same container iterated by several loops
+                    continue
+            if all(not isinstance(v, tuple) and _is_fresh_value(v, repo, m) for v in vs):
+                alias[name] = ("fresh",)
+                params.discard(name)
 
         def emit(node, recv: ast.AST, attr: str, kind: str):
             d = dotted(recv)
